@@ -68,11 +68,12 @@ theorem local_done_uploaded (cfg : Local.Cfg) (hr : cfg.recheck = true) (ha : cf
 
 /-- **local_progress**: a complete schedule over the threads `T` (nobody else was scheduled,
 and at the end no thread of `T` can take a step: no deadlock is possible) ends with every
-thread of `T` returned normally, i.e. (by `local_done_uploaded`) all parts uploaded. -/
+thread of `T` returned normally, i.e. (by `local_done_uploaded`) all parts uploaded - or
+ended in the storage error that the fault model injected into its own call. -/
 theorem local_progress (cfg : Local.Cfg) (hr : cfg.recheck = true) (ha : cfg.atomicLock = true)
     (T sched : List Nat)
     (hs : ∀ t ∈ sched, t ∈ T) (hmax : ∀ t ∈ T, Local.enabled (Local.run cfg sched) t = false) :
-    ∀ t ∈ T, (Local.run cfg sched).pc t = .done := by
+    ∀ t ∈ T, (Local.run cfg sched).pc t = .done ∨ (Local.run cfg sched).pc t = .faulted := by
   have hI : Local.Inv cfg (Local.run cfg sched) := Local.runFrom_inv cfg hr ha sched _ (Local.inv_init cfg)
   refine Local.all_done_of_stuck cfg _ hI T ?_ hmax
   intro t hne
@@ -93,6 +94,20 @@ theorem local_bounded (cfg : Local.Cfg) (T : List Nat) (hnd : T.Nodup) (sched : 
   have h0 := Sched.total_const (fun (s : Local.State) t => Local.remaining (s.pc t)) Local.init 14
     (fun _ => rfl) T
   omega
+
+/-- **Transient storage errors.**  `local_once` / `dist_once` quantify over every `Cfg`,
+hence over every assignment of injected failures (`faultCreate`, `faultCall`: a thread's
+create / upload_part / complete call raises once, nothing happens on the service): still at
+most one upload is initiated, every call carries its id, no thread fails for another reason.
+A thread whose own call failed only faults; a retry (another thread of the same kind) then
+finds the state the protocol needs - in particular a finalise whose `complete` call failed
+has NOT deleted the shared variable, so the retry completes the one upload: -/
+theorem dist_finalise_retry_example :
+    let cfg : Dist.Cfg := { kind := fun t => if t = 0 then .write 1 else .fin, worker := fun t => t,
+                            faultCall := fun t => t = 1 }
+    let s := Dist.run cfg (List.replicate 16 0 ++ List.replicate 12 1 ++ List.replicate 12 2)
+    s.pc 0 = .done ∧ s.pc 1 = .faulted ∧ s.pc 2 = .done ∧ s.creates = 1 ∧
+      s.calls = [.complete 1, .upload 1 1, .create 1] := by decide
 
 /-- the code as found (no re-check of `mpu.started` under the lock) -/
 def Local.asFound : Local.Cfg := { kind := fun t => .write (t + 1), recheck := false }
@@ -167,7 +182,7 @@ theorem dist_done_uploaded (cfg : Dist.Cfg) (sched : List Nat) (t : Nat)
 theorem dist_progress (cfg : Dist.Cfg) (T sched : List Nat)
     (hdel : (Dist.run cfg sched).deleted = false)
     (hs : ∀ t ∈ sched, t ∈ T) (hmax : ∀ t ∈ T, Dist.enabled (Dist.run cfg sched) t = false) :
-    ∀ t ∈ T, (Dist.run cfg sched).pc t = .done := by
+    ∀ t ∈ T, (Dist.run cfg sched).pc t = .done ∨ (Dist.run cfg sched).pc t = .faulted := by
   have hI : Dist.Inv cfg (Dist.run cfg sched) := Dist.runFrom_inv cfg sched _ (Dist.inv_init cfg) hdel
   refine Dist.all_done_of_stuck cfg _ hI T ?_ hmax
   intro t hne
@@ -218,6 +233,55 @@ completed and deleted the variable initiates a second upload.  (Not reachable th
 `mpu_write`: the finalise task consumes the results of all writes.) -/
 theorem dist_after_delete_cex :
     (Dist.run Dist.lateCfg (List.replicate 18 0 ++ List.replicate 18 1)).creates = 2 := by decide
+
+/-! ## One upload object over time: `cancel` -/
+
+/-- **once_after_cancel**: whatever happened to the object before (uploads completed, aborted,
+still active, a stale id left in `uploadId`), `cancel("all")` leaves it not started with no
+active upload on the service, and the next first write initiates exactly one new upload under
+which all parts of that attempt go; nothing fails. -/
+theorem once_after_cancel (s : Seq.State) (n : Nat) :
+    (Seq.step s .cancelAll).1.uploadId = 0 ∧ (Seq.step s .cancelAll).1.active = [] ∧
+    (Seq.run (Seq.step s .cancelAll).1 (List.replicate (n + 1) .write)).1.creates = s.creates + 1 ∧
+    (Seq.run (Seq.step s .cancelAll).1 (List.replicate (n + 1) .write)).1.uploadId = s.creates + 1 ∧
+    (∃ p rest, (Seq.run (Seq.step s .cancelAll).1 (List.replicate (n + 1) .write)).2.1 =
+        .create (s.creates + 1) :: .upload p (s.creates + 1) :: rest ∧
+        ∀ c ∈ rest, ∃ q, c = Seq.SCall.upload q (s.creates + 1)) ∧
+    (∀ b ∈ (Seq.run (Seq.step s .cancelAll).1 (List.replicate (n + 1) .write)).2.2, b = true) := by
+  have hs1 : (Seq.step s .cancelAll).1 =
+      { s with uploadId := 0, active := [], aborted := s.active ++ s.aborted } := rfl
+  rw [hs1]
+  refine ⟨rfl, rfl, ?_⟩
+  -- the first write initiates
+  have hstep : Seq.step { s with uploadId := 0, active := [], aborted := s.active ++ s.aborted } .write =
+      ({ s with uploadId := s.creates + 1, creates := s.creates + 1, active := [s.creates + 1],
+                aborted := s.active ++ s.aborted, nextPart := s.nextPart + 1 },
+       [.create (s.creates + 1), .upload s.nextPart (s.creates + 1)], true) := by
+    simp [Seq.step, Seq.ensureInit]
+  have h := Seq.writes_started (s.creates + 1) (by omega) n
+    { s with uploadId := s.creates + 1, creates := s.creates + 1, active := [s.creates + 1],
+             aborted := s.active ++ s.aborted, nextPart := s.nextPart + 1 } rfl (by simp)
+  simp only [List.replicate_succ, Seq.run, hstep]
+  obtain ⟨h1, h2, _, h4, h5⟩ := h
+  refine ⟨h2, h1, ⟨s.nextPart, _, rfl, h4⟩, ?_⟩
+  intro b hb
+  simp only [List.mem_cons] at hb
+  rcases hb with rfl | hb
+  · rfl
+  · exact h5 b hb
+
+/-- `cancel()` of the current, still active upload also resets the object (and aborts it). -/
+theorem cancel_current_resets (s : Seq.State) (h : s.active.contains s.uploadId = true) (h0 : s.uploadId ≠ 0) :
+    (Seq.step s .cancelCur).1.uploadId = 0 ∧ (Seq.step s .cancelCur).2.2 = true ∧
+      s.uploadId ∈ (Seq.step s .cancelCur).1.aborted := by
+  have hm : s.uploadId ∈ s.active := by simpa using h
+  simp [Seq.step, hm, h0]
+
+/-- What `cancel` cannot repair by naming a dead id (finding material, behaviour of the code as
+it is): after a finalise the object keeps the completed id; `cancel()` then fails with
+NoSuchUpload and the next write goes to the dead id. `cancel("all")` is the way out. -/
+theorem cancel_current_after_finalise_cex :
+    (Seq.run {} [.write, .fin, .cancelCur, .write]).2.2 = [true, true, false, false] := by decide
 
 /-! ## File sink -/
 
